@@ -361,7 +361,24 @@ pub fn finish(stats: Stats, out: &str, replay_dir: &str, extra: Value) {
 /// every `Builder::new()` maps an 80 MB table, so the work is split over child processes.
 /// Returns Some((shard, nshards)) in a child / unsharded run, None in the parent after it has
 /// spawned the children and merged their summaries into --out.
+/// When a shard process dies (abort, stack overflow, signal) the parent runs it once more with `--progress <file>`:
+/// guard_case then writes the case it is about to replay into that file, so that the death can be attributed.
+static PROGRESS: std::sync::OnceLock<Option<String>> = std::sync::OnceLock::new();
+
+fn note_progress(line: &Value) {
+    if let Some(Some(path)) = PROGRESS.get() {
+        let mut l = line.clone();
+        for k in ["bytes", "lbytes", "rbytes"] {
+            if l.get(k).is_some() && arr(&l[k]).len() > 4000 {
+                l[k] = Value::from("...");
+            }
+        }
+        std::fs::write(path, serde_json::to_string(&l).unwrap_or_default()).ok();
+    }
+}
+
 pub fn shard_or_spawn(cmd: &str, args: &Args) -> Option<(u64, u64)> {
+    PROGRESS.get_or_init(|| args.get("progress").map(|s| s.to_string()));
     if let Some(s) = args.get("shard") {
         return Some((s.parse().unwrap(), args.num("nshards", 1)));
     }
@@ -386,13 +403,55 @@ pub fn shard_or_spawn(cmd: &str, args: &Args) -> Option<(u64, u64)> {
     }
     let mut bad = false;
     let mut hang = false;
-    for mut c in children {
+    let mut died: Vec<u64> = vec![];
+    for (i, mut c) in children.into_iter().enumerate() {
         let st = c.wait().expect("wait");
         match st.code() {
             Some(0) => {}
             Some(1) => hang = true, // a shard reported a hang (it printed the VIOLATION line itself)
-            _ => bad = true,
+            Some(2) => bad = true,  // the shard itself reported a tool error
+            _ => died.push(i as u64), // killed by a signal / aborted (stack overflow, abort() in the code under test)
         }
+    }
+    // a dead shard is DATA about the code under test: run it again with a progress file to learn which case killed it
+    for i in died {
+        let prog = format!("{out}.{i}.progress");
+        std::fs::remove_file(&prog).ok();
+        let mut c = std::process::Command::new(&exe);
+        c.arg(cmd);
+        for (k, v) in &args.0 {
+            if k == "out" || k == "procs" {
+                continue;
+            }
+            c.arg(format!("--{k}")).arg(v);
+        }
+        c.arg("--out").arg(format!("{out}.{i}")).arg("--shard").arg(i.to_string()).arg("--nshards").arg(procs.to_string()).arg("--progress").arg(&prog);
+        let st = c.stderr(std::process::Stdio::null()).status().expect("rerun shard");
+        match st.code() {
+            Some(0) | Some(1) => {
+                eprintln!("shard {i} died once and succeeded when run again: not reproducible");
+                bad = true;
+            }
+            Some(2) => bad = true,
+            _ => {
+                let line: Value = std::fs::read_to_string(&prog).ok().and_then(|t| serde_json::from_str(&t).ok()).unwrap_or(Value::Null);
+                let prop = args.get("prop").unwrap_or("EXTRA").to_string();
+                let how = match st.code() {
+                    Some(c) => format!("exit status {c}"),
+                    None => "a signal (abort / stack overflow / segmentation fault)".to_string(),
+                };
+                let what = format!("the process replaying this case was killed by {how}: the code under test aborted, overflowed its stack or crashed");
+                let replay = serde_json::json!({"cmd": cmd, "property": prop, "seed": args.num("seed", 1), "line": line, "process_died": true, "diffs": [what.clone()]});
+                let replay_dir = args.req("replay-dir");
+                std::fs::create_dir_all(replay_dir).ok();
+                let name = format!("{}/{}-died-{:016x}.json", replay_dir, prop, fnv(&replay.to_string()));
+                std::fs::write(&name, serde_json::to_string_pretty(&replay).unwrap()).ok();
+                let summary = serde_json::json!({"cases": 1, "evaluations": 1, "nontrivial": 0, "counters": {"shards_died": 1}, "samples": [], "extra": {},
+                    "violations": [{"property": prop, "what": what, "replay": name}]});
+                std::fs::write(format!("{out}.{i}"), serde_json::to_string(&summary).unwrap()).expect("write summary of the dead shard");
+            }
+        }
+        std::fs::remove_file(&prog).ok();
     }
     if bad {
         eprintln!("a shard failed");
@@ -455,6 +514,7 @@ pub fn in_shard(idx: usize, shard: (u64, u64)) -> bool {
 /// (e.g. `Ontology::iter()` panicking) is DATA: it becomes a violation of the property, never a
 /// crash of the harness.
 pub fn guard_case(st: &mut Stats, prop: &str, cmd: &str, line: &Value, f: impl FnOnce(&mut Stats)) {
+    note_progress(line);
     let before = st.violations.len();
     let r = panic::catch_unwind(AssertUnwindSafe(|| f(st)));
     if let Err(e) = r {
